@@ -150,14 +150,16 @@ theorem query_roundtrip_guards_necessary (q : Query) (h : unmarshalQuery (marsha
     exact ⟨hf, Int.dvd_of_tmod_eq_zero (by omega), Int.dvd_of_tmod_eq_zero (by omega)⟩
   · simp [hf] at h
 
-theorem metadata_roundtrip_exact (m : Metadata) :
+/-- metadata statements (`show tag values ... where ...`); `hk` is the range of Go's `uint8` -/
+theorem metadata_roundtrip_exact (m : Metadata) (hk : m.kind < 256) :
     unmarshalMetadata (marshalMetadata m) =
       if optWellFormed m.condition then .ok m else .error .syntax :=
-  unmarshalMetadata_marshalMetadata m
+  unmarshalMetadata_marshalMetadata m hk
 
-theorem metadata_roundtrip_partial (m : Metadata) (h : optWellFormed m.condition = true) :
+theorem metadata_roundtrip_partial (m : Metadata) (hk : m.kind < 256)
+    (h : optWellFormed m.condition = true) :
     unmarshalMetadata (marshalMetadata m) = .ok m := by
-  rw [metadata_roundtrip_exact, h]; rfl
+  rw [metadata_roundtrip_exact m hk, h]; rfl
 
 /-! ## The JSON text layer (jsoniter) as a parameter -/
 
